@@ -335,7 +335,11 @@ func runC09(opt Opts) error {
 	return writeCases(opt.Out, "C09_run", cases, func(i int) string { return cases[i].Coq() }, len(cases))
 }
 
-// writeCases prints the Gallina case file and the JSON twin.
+// writeCases prints the Gallina case files and their JSON twins, in chunks of at most
+// caseChunk cases (cases_000.v / cases_000.json, ...), so that the Coq side can be evaluated in
+// parallel and no single file grows beyond what coqc parses quickly.
+var caseChunk = 1500
+
 func writeCases(dir, corrModule string, cases interface{}, coq func(int) string, n int) error {
 	if err := os.MkdirAll(dir, 0o755); err != nil {
 		return err
@@ -344,20 +348,37 @@ func writeCases(dir, corrModule string, cases interface{}, coq func(int) string,
 	if err != nil {
 		return err
 	}
-	if err := os.WriteFile(filepath.Join(dir, "cases.json"), js, 0o644); err != nil {
+	var raw []json.RawMessage
+	if err := json.Unmarshal(js, &raw); err != nil {
 		return err
 	}
-	var b strings.Builder
-	b.WriteString("From Coq Require Import List ZArith Bool String.\nImport ListNotations.\n")
-	b.WriteString("From PT Require Import Corr." + corrModule + ".\n")
-	b.WriteString("Definition cases : list case := [\n")
-	for i := 0; i < n; i++ {
-		if i > 0 {
-			b.WriteString(";\n")
-		}
-		b.WriteString("  " + coq(i))
+	if n == 0 {
+		raw = nil
 	}
-	b.WriteString("\n].\n")
-	b.WriteString("Definition M := Eval vm_compute in (check_all 0 cases).\nPrint M.\n")
-	return os.WriteFile(filepath.Join(dir, "cases.v"), []byte(b.String()), 0o644)
+	for k, lo := 0, 0; lo < n || k == 0; k, lo = k+1, lo+caseChunk {
+		hi := lo + caseChunk
+		if hi > n {
+			hi = n
+		}
+		part, _ := json.Marshal(raw[lo:hi])
+		if err := os.WriteFile(filepath.Join(dir, fmt.Sprintf("cases_%03d.json", k)), part, 0o644); err != nil {
+			return err
+		}
+		var b strings.Builder
+		b.WriteString("From Coq Require Import List ZArith Bool String.\nImport ListNotations.\n")
+		b.WriteString("From PT Require Import Corr." + corrModule + ".\n")
+		b.WriteString("Definition cases : list case := [\n")
+		for i := lo; i < hi; i++ {
+			if i > lo {
+				b.WriteString(";\n")
+			}
+			b.WriteString("  " + coq(i))
+		}
+		b.WriteString("\n].\n")
+		b.WriteString("Definition M := Eval vm_compute in (check_all 0 cases).\nPrint M.\n")
+		if err := os.WriteFile(filepath.Join(dir, fmt.Sprintf("cases_%03d.v", k)), []byte(b.String()), 0o644); err != nil {
+			return err
+		}
+	}
+	return nil
 }
